@@ -491,6 +491,18 @@ def run_property(pid, mod, tier, seed, replay=None, corpus_only=False):
     if proof_ok and not no_proof and (not theorems or ass["rc"] != 0 or any(t[1] == "MISSING" for t in theorems)):
         proof_ok = False
         b.broken[pid] = {"file": f"Props/{pid}.v", "line": None, "error": "Print Assumptions output incomplete: " + ass.get("raw_tail", "")}
+    coqchk = None
+    if tier == "thorough" and proof_ok and not no_proof:
+        # independent re-check of the compiled cone, with the axioms it relies on (-o)
+        q = []
+        for d in COQ_DIRS:
+            q += ["-Q", d, ""]
+        rc, out = sh(["timeout", "2400", "coqchk", "-silent", "-o"] + q + [pid], cwd=os.path.join(b.dir, "coq"), timeout=2500)
+        tail = [l for l in out.splitlines() if l.strip()][-25:]
+        coqchk = {"rc": rc, "summary": tail}
+        if rc != 0:
+            proof_ok = False
+            b.broken[pid] = {"file": f"Props/{pid}.vo", "line": None, "error": "coqchk rejects the compiled cone: " + " | ".join(tail[-5:])}
     n_obl = len(theorems) if theorems else count_theorems(pid)
     if proof_ok and undischarged:
         proof_ok = False
@@ -588,6 +600,7 @@ def run_property(pid, mod, tier, seed, replay=None, corpus_only=False):
             "trusted_base": trusted + [f"axioms reported by Print Assumptions: {axioms if axioms else 'none (Closed under the global context)'}"],
             "theorems": [{"name": t[0], "assumptions": t[1]} for t in theorems],
             "proof_broken": b.broken.get(pid),
+            "coqchk": coqchk,
             "evaluations": len(results),
             "distinct_nontrivial": len(sigs),
             "rule": getattr(mod, "RULE", ""),
